@@ -1,5 +1,5 @@
 # bash oracle for C17/C18. usage: bash oracle.sh <cfg> <infile>
-# infile: pairs of lines: pattern, then the non-empty test strings separated by single spaces.
+# infile: pairs of lines: pattern, then the non-empty test strings separated by the unit separator (0x1f).
 # Pattern and strings only ever live in variables (never in script text). Output: one line of 0/1 per pattern,
 # first bit = the empty string.
 cfg=$1
@@ -11,7 +11,7 @@ fold) shopt -s extglob nocasematch ;;
 case_fold) shopt -s extglob nocasematch ;;
 quoted) shopt -s extglob ;;
 esac
-while IFS= read -r p && IFS=' ' read -r -a strs; do
+while IFS= read -r p && IFS=$'\x1f' read -r -a strs; do
 	out=
 	case $cfg in
 	dbl | fold)
